@@ -103,7 +103,7 @@ var ruleQueryDiscipline = &core.Rule{ID: "R10.4", Min: 8,
 				if call, ok := iff.Cond.(*ssa.Call); ok && call.Block() == r.Body && len(call.Call.Args) == 2 && isPath(call.Call.Args[1]) {
 					// arg0: field #0 of the element
 					elemPath := false
-					if base, _, ok := core.LoadOfField(call.Call.Args[0]); ok && base == ssa.Value(r.ElemAddr) {
+					if _, ok := elemFieldLoad(r, call.Call.Args[0]); ok {
 						elemPath = true
 					}
 					hit := retOf(r.Body.Succs[0])
@@ -394,4 +394,49 @@ func pathEqShape(eq *ssa.Function) (bool, string) {
 		}
 	}
 	return false, "the helper does not compare every segment of both paths with bytes.Equal"
+}
+
+// elemFieldLoad: v is a field of the element the range r is at: a load through
+// the element's address, a field of the loaded element, or a load through a
+// local copy of the element made in the loop body (for _, q := range qs).
+func elemFieldLoad(r fde.RangeElem, v ssa.Value) (int, bool) {
+	if fv, ok := v.(*ssa.Field); ok {
+		if ld, ok := fv.X.(*ssa.UnOp); ok && ld.Op == token.MUL && ld.X == ssa.Value(r.ElemAddr) {
+			return fv.Field, true
+		}
+		return 0, false
+	}
+	base, fld, ok := core.LoadOfField(v)
+	if !ok {
+		return 0, false
+	}
+	if base == ssa.Value(r.ElemAddr) {
+		return fld, true
+	}
+	loc, ok := base.(*ssa.Alloc)
+	if !ok || loc.Heap {
+		return 0, false
+	}
+	// the copy: exactly one store into the local, of the element, in the loop body before the use; only field reads otherwise
+	nSt := 0
+	for _, ref := range *loc.Referrers() {
+		switch x := ref.(type) {
+		case *ssa.Store:
+			ld, isLd := x.Val.(*ssa.UnOp)
+			if x.Addr != ssa.Value(loc) || !isLd || ld.Op != token.MUL || ld.X != ssa.Value(r.ElemAddr) || x.Block() != r.Body {
+				return 0, false
+			}
+			nSt++
+		case *ssa.FieldAddr:
+			for _, r2 := range *x.Referrers() {
+				if u, ok := r2.(*ssa.UnOp); !ok || u.Op != token.MUL {
+					return 0, false
+				}
+			}
+		case *ssa.DebugRef:
+		default:
+			return 0, false
+		}
+	}
+	return fld, nSt == 1
 }
